@@ -897,6 +897,120 @@ fn corr_fit_case(out: &mut Out, data: &[Vec<f64>], k: usize, max_iter: usize) {
 }
 
 // ------------------------------------------------------------------------------------------
+// ------------------------------------------------------------------------------------------
+// api_trait_twin: `smartcore::api::{UnsupervisedEstimator::fit, Predictor::predict}` against the inherent
+// methods.  The seeding of fit is drawn from an unseeded generator, so the two fitted models are NOT
+// compared with each other: Ok/Err of the two fits must agree, and for each of the two models predict
+// through the trait equals the inherent predict, bit for bit, on the training matrix and on the query rows.
+// A model with GIVEN centroids (rebuilt through serde, deterministic) is compared the same way.
+// ------------------------------------------------------------------------------------------
+fn twin_fit(data: &[Vec<f64>], k: usize, max_iter: usize, queries: &[Vec<f64>]) -> Option<twin::Diff> {
+    type DM = smartcore::linalg::naive::dense_matrix::DenseMatrix<f64>;
+    if data.is_empty() || data[0].is_empty() || queries.is_empty() {
+        return None;
+    }
+    let m = dense(data);
+    let q = dense(queries);
+    let p = KMeansParameters::default().with_k(k).with_max_iter(max_iter);
+    let probes = [("the training matrix", &m), ("the query rows", &q)];
+    let d = twin::check(
+        "UnsupervisedEstimator",
+        "Predictor",
+        "predict",
+        || twin::fit_unsup::<KMeans<f64>, _, _>(&m, p.clone()),
+        || KMeans::<f64>::fit(&m, p.clone()),
+        |e: &KMeans<f64>, z: &DM| twin::predict(e, z),
+        |e: &KMeans<f64>, z: &DM| e.predict(z),
+        &probes,
+        |_e: &KMeans<f64>| String::new(),
+        false,
+    );
+    VERIF_KMEANS_SEEDING.with(|r| r.borrow_mut().clear());
+    d
+}
+fn twin_given_centroids(cents: &[Vec<f64>], x: &[Vec<f64>]) -> Option<twin::Diff> {
+    type DM = smartcore::linalg::naive::dense_matrix::DenseMatrix<f64>;
+    if cents.is_empty() || x.is_empty() || x[0].is_empty() {
+        return None;
+    }
+    let xm = dense(x);
+    let probes = [("the rows", &xm)];
+    twin::check(
+        "serde",
+        "Predictor",
+        "predict",
+        || Ok(model_from_centroids(cents).expect("model from centroids")),
+        || Ok(model_from_centroids(cents).expect("model from centroids")),
+        |e: &KMeans<f64>, z: &DM| twin::predict(e, z),
+        |e: &KMeans<f64>, z: &DM| e.predict(z),
+        &probes,
+        |e: &KMeans<f64>| serde_json::to_string(e).unwrap_or_default(),
+        true,
+    )
+}
+fn check_twin(out: &mut Out, data: &[Vec<f64>], k: usize, max_iter: usize, queries: &[Vec<f64>], fam: &str) {
+    let mut key: Vec<f64> = data.iter().flatten().cloned().collect();
+    key.extend(queries.iter().flatten());
+    key.extend(&[k as f64, max_iter as f64, -7.0]);
+    out.eval(hash_f64s(&key), k >= 2 && distinct_rows(data) >= 2);
+    out.count(&format!("twin:fit:{}", fam));
+    if let Some(d) = twin_fit(data, k, max_iter, queries) {
+        // shrink (every candidate is tried a few times: the seeding differs from fit to fit)
+        let fails = |dd: &[Vec<f64>], qq: &[Vec<f64>]| (0..3).any(|_| twin_fit(dd, k, max_iter, qq).is_some());
+        let (mut cd, mut cq) = (data.to_vec(), queries.to_vec());
+        let mut progress = true;
+        let mut budget = 150;
+        while progress && budget > 0 {
+            progress = false;
+            let mut i = 0;
+            while cq.len() > 1 && i < cq.len() && budget > 0 {
+                let mut t = cq.clone();
+                t.remove(i);
+                budget -= 1;
+                if fails(&cd, &t) { cq = t; progress = true; } else { i += 1; }
+            }
+            let mut i = 0;
+            while cd.len() > k.max(2) && i < cd.len() && budget > 0 {
+                let mut t = cd.clone();
+                t.remove(i);
+                budget -= 1;
+                if distinct_rows(&t) >= k && fails(&t, &cq) { cd = t; progress = true; } else { i += 1; }
+            }
+        }
+        let d2 = (0..5).find_map(|_| twin_fit(&cd, k, max_iter, &cq)).unwrap_or(d);
+        out.count(&format!("twin:failing:{}", "KMeans"));
+        out.fail(
+            twin::ORACLE,
+            &format!("KMeans: {}: {}", d2.call, d2.what),
+            json!({"entry": "twin", "oracle": twin::ORACLE, "estimator": "KMeans", "data": cd, "k": k, "max_iter": max_iter, "queries": cq, "repeat": 20, "differing_call": d2.call}),
+        );
+    }
+}
+fn check_twin_centroids(out: &mut Out, cents: &[Vec<f64>], x: &[Vec<f64>]) {
+    let mut key: Vec<f64> = cents.iter().flatten().cloned().collect();
+    key.extend(x.iter().flatten());
+    key.push(-8.0);
+    out.eval(hash_f64s(&key), cents.len() >= 2);
+    out.count("twin:predict-with-given-centroids");
+    if twin_given_centroids(cents, x).is_some() {
+        let mut cx = x.to_vec();
+        let mut i = 0;
+        while cx.len() > 1 && i < cx.len() {
+            let mut t = cx.clone();
+            t.remove(i);
+            if twin_given_centroids(cents, &t).is_some() { cx = t; } else { i += 1; }
+        }
+        if let Some(d) = twin_given_centroids(cents, &cx) {
+            out.count(&format!("twin:failing:{}", "KMeans(given centroids)"));
+            out.fail(
+                twin::ORACLE,
+                &format!("KMeans: {}: {}", d.call, d.what),
+                json!({"entry": "twin", "oracle": twin::ORACLE, "estimator": "KMeans", "centroids": cents, "x": cx, "differing_call": d.call}),
+            );
+        }
+    }
+}
+
 fn replay(path: &str) -> i32 {
     let v = read_replay(path);
     let inp = if v.get("input").is_some() { v["input"].clone() } else { v.clone() };
@@ -933,6 +1047,18 @@ fn replay(path: &str) -> i32 {
             r
         }
         "prune" => None,
+        "twin" => {
+            let d = if inp.get("centroids").is_some() {
+                twin_given_centroids(&rows_from_json(&inp["centroids"]), &rows_from_json(&inp["x"]))
+            } else {
+                let data = rows_from_json(&inp["data"]);
+                let q = rows_from_json(&inp["queries"]);
+                let k = inp["k"].as_u64().unwrap_or(2) as usize;
+                let mi = inp["max_iter"].as_u64().unwrap_or(100) as usize;
+                (0..inp["repeat"].as_u64().unwrap_or(20)).find_map(|_| twin_fit(&data, k, mi, &q))
+            };
+            d.map(|d| (twin::ORACLE.to_string(), format!("{}: {}", d.call, d.what)))
+        }
         "predict" => {
             let cs = rows_from_json(&inp["centroids"]);
             let x = rows_from_json(&inp["x"]);
@@ -1003,7 +1129,7 @@ fn main() {
     let mut rng = Rng::new(a.seed);
     let mut out = Out::new(
         "C12",
-        "search case = (data set, centroid set) for the assignment step, (data set, k, max_iter, one draw of the unseeded seeding) for fit/predict; non-trivial: k >= 2 and >= 2 distinct rows; distinct by hash of (data, centroids) resp. (data, k, max_iter) — repeated fits of one data set count once",
+        "search case = (data set, centroid set) for the assignment step, (data set, k, max_iter, one draw of the unseeded seeding) for fit/predict; non-trivial: k >= 2 and >= 2 distinct rows; distinct by hash of (data, centroids) resp. (data, k, max_iter) — repeated fits of one data set count once. api-trait twin case = (data, k, max_iter, query rows) fitted through smartcore::api::UnsupervisedEstimator and through the inherent fit, or a model with given centroids: Predictor::predict must equal the inherent predict bit for bit on the same model",
     );
 
     // ---- corpus: the unit-test inputs and hand-made tie geometries ----
@@ -1176,6 +1302,35 @@ fn main() {
         queries.truncate(nq);
         let reps = if n <= 15 { 4 } else { 2 };
         check_fit(&mut out, &data, k, max_iter, &queries, fam.name(), reps);
+    }
+    // ---- api-trait twins (own stream derived from the seed: the streams of the other sections are unchanged) ----
+    {
+        let mut trng = Rng::new(a.seed ^ 0x7717_0c12);
+        for i in 0..(if a.thorough { 500 } else { 60 }) {
+            let fam = pick_family(&mut trng);
+            let k = trng.usize_in(2, 6);
+            let n = trng.usize_in(k.max(4), 40);
+            let d = trng.usize_in(1, 4);
+            let max_iter = *trng.pick(&[1usize, 2, 5, 30, 100]);
+            let data = match gen_fit_data(&mut trng, fam, n, d, k) {
+                Some(x) => x,
+                None => continue,
+            };
+            if fam != Fam::Lattice && min_separation(&data) <= 4e-10 {
+                continue;
+            }
+            let queries = gen_data(&mut trng, fam, 4, d);
+            check_twin(&mut out, &data, k, max_iter, &queries, fam.name());
+            if i % 2 == 0 {
+                let (cs, _, _) = gen_centroids(&mut trng, &data, fam, k);
+                check_twin_centroids(&mut out, &cs, &queries);
+            }
+            if i % 20 == 0 {
+                // parameter validation through both entry points
+                check_twin(&mut out, &data, trng.below(2), max_iter, &queries, "k<2");
+                check_twin(&mut out, &data, k, 0, &queries, "max_iter=0");
+            }
+        }
     }
     // ---- search: data with a large common offset relative to its spread (offset/spread 1e3 .. 1e9) ----
     // (a) predict for arbitrary centroid sets, (b) the assignment step, (c) whole fits + predict.
